@@ -263,6 +263,67 @@ pub fn run(tier: &str) -> i32 {
     }
     rep.sub("token-triples", "all ordered triples over a sub-alphabet of tokens on ranks A,K,Q (23 rank-pair tokens + 17 card pairs; every third token in quick), weights (1, 0.5, 0.25); plus every A,B,A list with the textually identical token before and after another one", (nt * nt * nt + 2 * nt * nt) as u64, (nt * nt * nt + 2 * nt * nt) as u64, false, json!({"tokens": nt}));
 
+    // (d2) long and unusual weight literals: the weight is the f32 nearest the literal, however many digits
+    {
+        let mut lits: Vec<String> = vec![];
+        for base in ["0.6666666666", "0.70710678118654752", "0.3333333333333333333333", "0.0000000001", "0.000000000000000000001", "1.0000000000000", "0.4294967295", "0.4294967296", "0.9999999999", "0.99999999999999999999", "0.5000000000000000000000000000001", "0.1000000000", "0.00000000000000000000000000000000000000000001", "0.123456789012345678901234567890123456789"] {
+            lits.push(format!(":{}", base));
+        }
+        for digits in 5..=12usize {
+            lits.push(format!(":0.{}", "7".repeat(digits)));
+            lits.push(format!(":0.{}1", "0".repeat(digits)));
+        }
+        let heads: Vec<&Tok> = ["TT-88", "AQs-A9s", "KJo-K9o", "99+", "A9s+", "K9o+", "44", "JTs", "72o", "AsKs"].iter().map(|h| all.iter().find(|t| t.text == *h).copied().unwrap()).collect();
+        let mut n = 0u64;
+        for l in &lits {
+            for h in &heads {
+                n += 1;
+                let text = format!("{}{}", h.text, l);
+                let mut exp = Contents::new();
+                let w = l[1..].parse::<f32>().unwrap().to_bits();
+                for cb in &h.combos {
+                    exp.insert(*cb, w);
+                }
+                if let Some(b) = check_range_text(&text, &exp) {
+                    rep.violation(Violation { key: format!("range={}", text), sub: "long-weights".into(), case: json!({"text": text}), expected: json!("the f32 nearest the literal"), observed: b });
+                }
+            }
+        }
+        rep.sub("long-weights", "30 weight literals of 5 to 45 fraction digits (values around u32::MAX/10^10, repeated digits, tiny values, 1.000...) behind one token of each shape", n, n, false, json!({"literals": lits.len()}));
+    }
+
+    // (d3) a list whose first tokens already cover all 1326 combos, followed by overriding tokens
+    {
+        let mut cover: Vec<(&Tok, &str)> = vec![];
+        let find = |s: &str| all.iter().find(|t| t.text == s).copied().unwrap();
+        cover.push((find("22+"), ""));
+        for h in 0..12usize {
+            let k = if h == 11 { String::new() } else { "+".to_string() };
+            cover.push((find(&format!("{}2s{}", RANK_CHARS[h], k)), ":0.5"));
+            cover.push((find(&format!("{}2o{}", RANK_CHARS[h], k)), ":0.25"));
+        }
+        let overrides: Vec<(&Tok, &str)> = vec![(find("QQ+"), ":0"), (find("AsKs"), ":0.125"), (find("72o"), ""), (find("A5s-A2s"), ":0.3"), (find("2c2d"), ":0.999"), (find("KsAs"), "")];
+        let mut n = 0u64;
+        for upto in 0..=overrides.len() {
+            for start in 0..overrides.len() {
+                let mut l = cover.clone();
+                for k in 0..upto {
+                    l.push(overrides[(start + k) % overrides.len()]);
+                }
+                n += 1;
+                let text = list_text(&l);
+                let exp = expected_list(&l);
+                if exp.len() != 1326 {
+                    panic!("harness: the cover list does not cover all combos");
+                }
+                if let Some(b) = check_range_text(&text, &exp) {
+                    rep.violation(Violation { key: format!("range={}...{}", &text[..20], &text[text.len().saturating_sub(40)..]), sub: "full-cover-then-override".into(), case: json!({"text": text}), expected: json!("tokens after a prefix that already covers all 1326 combos still apply"), observed: b });
+                }
+            }
+        }
+        rep.sub("full-cover-then-override", "a 25-token list covering all 1326 combos (22+, X2s+ and X2o+ for every high card) followed by 0..=6 overriding tokens in every rotation", n, n, false, json!({}));
+    }
+
     // (e) spaces at every offset; empty input
     let texts: Vec<String> = vec!["QQ+,A9s+:0.5,88-66,AQs-A9s:0.25,44,JTs,72o,AsKs".to_string(), "22+:0.3".into(), "AKo-A2o,KsAs:0".into(), "T9s+,T9o+:1.0".into()];
     let mut n_sp = 0u64;
